@@ -4,6 +4,8 @@ import (
 	"flag"
 	"fmt"
 	"os"
+	"runtime"
+	"runtime/pprof"
 	"sort"
 	"strconv"
 )
@@ -20,6 +22,11 @@ func main() {
 	list := flag.Bool("list", false, "list properties")
 	dump := flag.String("dump", "", "debug: dump facts (roots|cg|sql)")
 	flag.Parse()
+	// many threads allocating at once make this VM spend most of its time in the kernel (page faults);
+	// four is the measured sweet spot for load + SSA construction
+	if os.Getenv("GOMAXPROCS") == "" {
+		runtime.GOMAXPROCS(4)
+	}
 	if *list {
 		var ids []string
 		for id := range props {
@@ -36,6 +43,11 @@ func main() {
 		if v, err := strconv.ParseInt(s, 10, 64); err == nil {
 			seed = v
 		}
+	}
+	if pf := os.Getenv("PEGCHECK_PROF"); pf != "" {
+		f, _ := os.Create(pf)
+		pprof.StartCPUProfile(f)
+		defer pprof.StopCPUProfile()
 	}
 	c := load(*repo)
 	c.Verif = *verif
@@ -56,7 +68,9 @@ func main() {
 	r.Extra["reachable_from_sync"] = len(c.RSync)
 	r.Extra["reachable_from_api"] = len(c.RAPI)
 	fn(c, r)
-	os.Exit(r.finish(*verif, seed))
+	code := r.finish(*verif, seed)
+	pprof.StopCPUProfile()
+	os.Exit(code)
 }
 
 func dumpFacts(c *Ctx, what string) {
